@@ -791,3 +791,52 @@ Theorem http_hdr_not_stored_when_stale_fixed : forall f cachable h dflt now1 now
   rfc_remaining h dflt now2 = Some l -> l <= 0 ->
   http_store_hdr f cachable h dflt now1 now2 = None.
 Proof. intros f cachable h dflt now1 now2 l H2 H4 Hn Ha. apply http_hdr_not_stored_when_stale; auto. apply guard_F4_fixed. exact H4. Qed.
+
+(** ** time passing between the arrival of a response and the Set (slow body)
+
+    [now1]: the response (its headers) arrived and the library computed the
+    expiry; [now2]: [time.Until] is read, after the body has been dumped.  The
+    freshness left at the time of the Set is what was left on arrival minus the
+    time that has passed since. *)
+Lemma rfc_current_age_mono h now1 now2 :
+  now1 <= now2 -> rfc_current_age h now1 <= rfc_current_age h now2.
+Proof.
+  intro H. unfold rfc_current_age. destruct (hv_date h) as [d|]; [|lia].
+  pose proof (secs_mono _ _ (unix_mono _ _ H)). lia.
+Qed.
+
+Theorem http_hdr_within_rfc_at_set : forall f cachable h dflt now1 now2 ttl,
+  fx2 f = true -> fx4 f = true -> now1 <= now2 -> 0 <= hv_age h ->
+  http_store_hdr f cachable h dflt now1 now2 = Some ttl ->
+  exists l, rfc_remaining h dflt now1 = Some l /\ 0 < ttl /\ ttl <= l - (now2 - now1).
+Proof.
+  intros f cachable h dflt now1 now2 ttl H2 H4 Hn Hage Hs.
+  pose proof (rfc_current_age_mono h now1 now2 Hn) as Hmono.
+  unfold http_store_hdr in Hs. rewrite H4 in Hs. simpl in Hs.
+  destruct (bad_expires h) eqn:Eb; [discriminate|].
+  destruct (http_store_decision f cachable (lib_expires h now1) dflt now1 now2) as [t0|] eqn:Ec; [|discriminate].
+  rewrite current_age_spec in Hs.
+  destruct (t0 - rfc_current_age h now2 <=? 0) eqn:Et; inversion Hs; subst ttl.
+  unfold http_store_decision in Ec. destruct cachable; simpl in Ec; [|discriminate]. rewrite H2 in Ec. simpl in Ec.
+  unfold rfc_remaining, lifetime_or_default, rfc_lifetime. unfold lib_expires, bad_expires in *.
+  destruct (hv_maxage h) as [m|].
+  - destruct (now1 + m - now2 <=? 0); inversion Ec; subst. eexists; split; [reflexivity|]. simpl. lia.
+  - destruct (hv_expires h) as [[x|]|]; try discriminate.
+    + destruct (hv_date h) as [d|].
+      * destruct (now1 + (x - d) - now2 <=? 0); inversion Ec; subst. eexists; split; [reflexivity|]. simpl. lia.
+      * destruct (x - now2 <=? 0); inversion Ec; subst. eexists; split; [reflexivity|]. simpl. lia.
+    + destruct (dflt =? 0) eqn:Ed; [discriminate|].
+      destruct (now1 + dflt - now2 <=? 0); inversion Ec; subst. eexists; split; [reflexivity|]. simpl. lia.
+Qed.
+
+(** so a response that has gone stale while its body was still arriving is not stored *)
+Theorem http_hdr_not_stored_when_stale_at_set : forall f cachable h dflt now1 now2 l,
+  fx2 f = true -> fx4 f = true -> now1 <= now2 -> 0 <= hv_age h ->
+  rfc_remaining h dflt now1 = Some l -> l <= now2 - now1 ->
+  http_store_hdr f cachable h dflt now1 now2 = None.
+Proof.
+  intros f cachable h dflt now1 now2 l H2 H4 Hn Hage Hl Hle.
+  destruct (http_store_hdr f cachable h dflt now1 now2) as [ttl|] eqn:Es; [|reflexivity].
+  destruct (http_hdr_within_rfc_at_set _ _ _ _ _ _ _ H2 H4 Hn Hage Es) as (l' & Hl' & Hp & Hb).
+  rewrite Hl in Hl'. inversion Hl'; subst. lia.
+Qed.
